@@ -67,6 +67,9 @@ pub struct Fault {
 
 #[derive(Clone, Debug, Serialize, Deserialize)]
 pub struct Scenario {
+    /// inert since the defects it steered around were repaired (7eb49b5, cdf790f, 86adc13);
+    /// kept so that recorded replay files still parse
+    #[serde(default)]
     pub guarded: bool,
     pub cfg: NetCfg,
     /// host 0 is the server host
@@ -272,6 +275,9 @@ impl<'a> Sim<'a> {
                     self.cs[c].client_closed = true;
                     self.log.ev(format!("r{} c{c}: connect cancelled", self.round));
                     self.rep.faults.inc("connect_cancelled");
+                    if self.cs[c].target.map(|t| self.listening_at(t).is_some()).unwrap_or(false) {
+                        self.rep.faults.inc("connect_cancelled_to_live_listener");
+                    }
                 }
             }
             Act::Accept { l } => {
@@ -555,38 +561,18 @@ impl<'a> Sim<'a> {
             self.observe_wire(&p);
             let f = self.fate(idx);
             self.note(|| format!("wire #{idx} {}{}", desc(&p), f.map(|f| format!("  <= {f:?}")).unwrap_or_default()));
-            // known finding (orphaned FinWait2 is never reclaimed when the peer's RST is lost):
-                // guarded scenarios do not drop RSTs
-                let f = if self.sc.guarded && f == Some(FaultKind::Drop) && kind(&p) == PktKind::Rst {
-                    self.rep.probes.inc("guard_kept_rst");
-                    None
-                } else {
-                    f
-                };
-            // known finding (C06's O7c: a lost handshake ACK is not repaired, the duplicate SYN-ACK
-            // is not re-ACKed): guarded scenarios do not drop the handshake ACK
-            let first_ack = if kind(&p) == PktKind::Ack {
+            // the first pure ACK of a client->server 4-tuple is the handshake ACK (coverage probe)
+            if kind(&p) == PktKind::Ack {
                 let (sp, dp) = ports(&p);
                 let tuple = (SocketAddr::new(p.src, sp), SocketAddr::new(p.dst, dp));
                 let is_client = self.cs.iter().any(|c| c.target == Some(tuple.1) && (c.wire_src == Some(tuple.0) || c.client_local == Some(tuple.0)));
                 if is_client && !self.handshake_acked.contains(&tuple) {
                     self.handshake_acked.push(tuple);
-                    true
-                } else {
-                    false
+                    if f == Some(FaultKind::Drop) {
+                        self.rep.probes.inc("handshake_ack_dropped");
+                    }
                 }
-            } else {
-                false
-            };
-            let f = if self.sc.guarded && first_ack && f == Some(FaultKind::Drop) {
-                self.rep.probes.inc("guard_kept_handshake_ack");
-                None
-            } else {
-                if first_ack && f == Some(FaultKind::Drop) {
-                    self.rep.probes.inc("handshake_ack_dropped");
-                }
-                f
-            };
+            }
             match f {
                 Some(FaultKind::Drop) => {
                     self.rep.faults.inc(&format!("drop_{}", kind(&p).name()));
@@ -1106,15 +1092,14 @@ fn run_inner(sc: &Scenario, keep: bool) -> (Report, u32) {
 // ------------------------------------------------------------------------------------------------
 // generator, variants, Property
 
-/// Known trigger (DESIGN O8): a server child that is aborted while still SynReceived is never
-/// reaped. It happens whenever a connector gives up (cancel) after its SYN reached a listener
-/// that answered. Guarded scenarios cancel only connects to ports nobody listens on.
+/// Does the timeline cancel a connect that targets a listener? (The trigger of the repaired
+/// defect O8 — fix 7eb49b5; no longer avoided by the generator, used in signatures only.)
 fn guard_trigger(sc: &Scenario) -> bool {
     sc.timeline.iter().any(|(_, a)| matches!(a, Act::Cancel { c } if sc.conns[*c].to.is_some()))
 }
 
 fn gen_scenario(rng: &mut Rng, tier: Tier) -> Scenario {
-    let guarded = !rng.chance(1, 20);
+    let guarded = false;
     let v6 = rng.chance(1, 6);
     let addr = |h: usize, k: usize| if v6 { format!("fd00::{h}:{}", k + 1) } else { format!("10.0.{h}.{}", k + 1) };
     let nclients = rng.usize(1, 2);
@@ -1142,8 +1127,7 @@ fn gen_scenario(rng: &mut Rng, tier: Tier) -> Scenario {
         tl.push((start, Act::Connect { c }));
         let mut t = start;
         // the connecting end
-        let cancel_ok = !guarded || to.is_none();
-        if cancel_ok && rng.chance(if guarded { 1 } else { 2 }, 4) {
+        if rng.chance(3, 10) {
             tl.push((start + rng.range(0, 4) as u32, Act::Cancel { c }));
         }
         for _ in 0..rng.usize(0, 4) {
@@ -1291,7 +1275,6 @@ impl Property for C13 {
 
     fn shrink(sc: &Scenario) -> Vec<Scenario> {
         let mut out = Vec::new();
-        let keep_guard = |c: &Scenario| !sc.guarded || !guard_trigger(c);
         // drop a whole connection (its actions with it)
         for c in (0..sc.conns.len()).rev() {
             let mut s = sc.clone();
@@ -1371,7 +1354,6 @@ impl Property for C13 {
             s.cfg.backlog = 4;
             out.push(s);
         }
-        out.retain(keep_guard);
         out
     }
 
@@ -1393,9 +1375,8 @@ impl Property for C13 {
         letters.sort();
         letters.dedup();
         format!(
-            "{}{} n{} f[{}]{}{}",
-            if guard_trigger(sc) { "TRIG " } else { "" },
-            if sc.guarded { "G" } else { "U" },
+            "{}n{} f[{}]{}{}",
+            if guard_trigger(sc) { "X " } else { "" },
             letters.len().min(3),
             sc.faults.iter().map(|f| format!("{:?}", f.kind)).collect::<Vec<_>>().join(","),
             if sc.reorder { " reorder" } else { "" },
@@ -1409,7 +1390,7 @@ impl Property for C13 {
         match matcher {
             KF_O8 => v.class == "LeakAbortedHandshake",
             KF_FW2 => v.class == "LeakFinWait2" && sc.faults.iter().any(|f| f.kind == FaultKind::Drop),
-            KF_O7C => v.class == "NotAccepted" && !sc.guarded && sc.faults.iter().any(|f| f.kind == FaultKind::Drop),
+            KF_O7C => v.class == "NotAccepted" && sc.faults.iter().any(|f| f.kind == FaultKind::Drop),
             _ => false,
         }
     }
@@ -1470,6 +1451,6 @@ mod tests {
         assert!(C13::known_match(KF_FW2, &trig, &Violation::new("LeakFinWait2", "")));
         trig.guarded = true;
         assert!(C13::known_match(KF_FW2, &trig, &Violation::new("LeakFinWait2", "")));
-        assert!(!C13::known_match(KF_O7C, &trig, &Violation::new("NotAccepted", "")));
+        assert!(C13::known_match(KF_O7C, &trig, &Violation::new("NotAccepted", "")));
     }
 }
